@@ -53,6 +53,9 @@ type Run struct {
 	Repo     string
 	Replay   string
 	Propose  bool
+	// RecordBaseline: maintenance mode that writes the list of failing cases
+	// of the unchanged tree (hashed keys) next to the known findings.
+	RecordBaseline bool
 	start    time.Time
 	mu       sync.Mutex
 	failures map[string]Failure // by key
@@ -75,6 +78,7 @@ func Start(prop string) *Run {
 	tier := flag.String("tier", envOr("VERIF_TIER", "quick"), "quick|thorough")
 	replay := flag.String("replay", "", "replay file")
 	propose := flag.Bool("propose", false, "print unlisted frontier elements as known-findings JSON instead of failing")
+	record := flag.Bool("record-baseline", false, "write baseline_failures/<id>.<tier>.txt (the failing cases of the unchanged tree) — maintenance only, never at check time")
 	flag.Parse()
 	r.Tier = *tier
 	if r.Tier != "thorough" {
@@ -82,6 +86,7 @@ func Start(prop string) *Run {
 	}
 	r.Replay = *replay
 	r.Propose = *propose
+	r.RecordBaseline = *record
 	fmt.Sscan(envOr("VERIF_SEED", "0"), &r.Seed)
 	r.Root = envOr("VERIF_ROOT", "/verif")
 	r.Repo = envOr("VERIF_REPO", "/repo")
@@ -130,6 +135,84 @@ func (r *Run) Frontier() []Failure {
 		minimal := true
 		for _, p := range f.Parents {
 			if r.failKind[f.Kind][p] {
+				minimal = false
+				break
+			}
+		}
+		if minimal {
+			out = append(out, f)
+		}
+	}
+	sort.Slice(out, func(i, j int) bool {
+		if out[i].Kind != out[j].Kind {
+			return out[i].Kind < out[j].Kind
+		}
+		if out[i].Size != out[j].Size {
+			return out[i].Size < out[j].Size
+		}
+		return out[i].Witness < out[j].Witness
+	})
+	if r.PerKindSmallest {
+		var o2 []Failure
+		last := "\x00"
+		for _, f := range out {
+			if f.Kind != last {
+				o2 = append(o2, f)
+				last = f.Kind
+			}
+		}
+		out = o2
+	}
+	return out
+}
+
+func keyHash(k string) string {
+	h := sha256.Sum256([]byte(k))
+	return fmt.Sprintf("%x", h[:6])
+}
+
+func (r *Run) baselinePath() string {
+	return filepath.Join(r.Root, "baseline_failures", r.Prop+"."+r.Tier+".txt")
+}
+
+// loadBaseline returns the hashed keys of the failing cases recorded on the
+// unchanged tree for this property and tier (nil if none was recorded).
+func (r *Run) loadBaseline() map[string]bool {
+	b, err := os.ReadFile(r.baselinePath())
+	if err != nil {
+		return nil
+	}
+	out := map[string]bool{}
+	for _, l := range strings.Split(string(b), "\n") {
+		if l = strings.TrimSpace(l); l != "" && !strings.HasPrefix(l, "#") {
+			out[l] = true
+		}
+	}
+	return out
+}
+
+// newFailureFrontier returns the minimal failing cases among those that are
+// NOT in the recorded baseline: a listed finding accounts for exactly the
+// failing cases seen on the unchanged tree, so a new failing case of an
+// already-listed kind (which the per-kind / parent reduction would fold into
+// the listed witness) is still reported.
+func (r *Run) newFailureFrontier(baseline map[string]bool) []Failure {
+	r.mu.Lock()
+	defer r.mu.Unlock()
+	isNew := map[string]bool{}
+	for k := range r.failures {
+		if !baseline[keyHash(k)] {
+			isNew[k] = true
+		}
+	}
+	var out []Failure
+	for k, f := range r.failures {
+		if !isNew[k] {
+			continue
+		}
+		minimal := true
+		for _, p := range f.Parents {
+			if isNew[f.Kind+" @ "+p] {
 				minimal = false
 				break
 			}
@@ -235,6 +318,41 @@ func (r *Run) Finish(coverage map[string]any, assumptions []string) {
 		}
 		unlisted = append(unlisted, f)
 	}
+	// failing cases that the unchanged tree did not have (see newFailureFrontier)
+	baseline := r.loadBaseline()
+	newCases := 0
+	if baseline != nil && !r.RecordBaseline {
+		reported := map[string]bool{}
+		for _, f := range unlisted {
+			reported[f.Key()] = true
+		}
+		for _, f := range r.newFailureFrontier(baseline) {
+			newCases++
+			if reported[f.Key()] {
+				continue
+			}
+			if _, ok := open[f.Key()]; ok {
+				continue
+			}
+			f.What = "new failing case of a kind that already has a listed finding (the listed finding does not account for it): " + f.What
+			unlisted = append(unlisted, f)
+		}
+	}
+	if r.RecordBaseline {
+		r.mu.Lock()
+		var hashes []string
+		for k := range r.failures {
+			hashes = append(hashes, keyHash(k))
+		}
+		r.mu.Unlock()
+		sort.Strings(hashes)
+		os.MkdirAll(filepath.Dir(r.baselinePath()), 0o755)
+		body := "# failing cases of " + r.Prop + " (" + r.Tier + ") on the unchanged tree: sha256 prefixes of \"<kind> @ <witness>\"; written by --record-baseline only\n" + strings.Join(hashes, "\n") + "\n"
+		if err := os.WriteFile(r.baselinePath(), []byte(body), 0o644); err != nil {
+			Fatalf("writing baseline: %v", err)
+		}
+		fmt.Printf("baseline recorded: %d failing cases -> %s\n", len(hashes), r.baselinePath())
+	}
 	var stale []string
 	for k := range open {
 		if !hit[k] {
@@ -271,6 +389,10 @@ func (r *Run) Finish(coverage map[string]any, assumptions []string) {
 	coverage["failing_cases_total"] = r.NumFailures()
 	coverage["known_findings_hit"] = len(hit)
 	coverage["known_findings_stale"] = stale
+	if baseline != nil {
+		coverage["baseline_failing_cases_recorded"] = len(baseline)
+		coverage["new_failing_cases_minimal"] = newCases
+	}
 	ev := map[string]any{
 		"property_id": r.Prop,
 		"tier":        r.Tier,
